@@ -139,6 +139,10 @@ vox_read_block (SF_PRIVATE *psf, IMA_OKI_ADPCM *pvox, short *ptr, int len)
 
 		ima_oki_adpcm_decode_block (pvox) ;
 
+		/* A code byte holds two samples : never hand out more than was asked for. */
+		if (pvox->pcm_count > len - indx)
+			pvox->pcm_count = len - indx ;
+
 		memcpy (&(ptr [indx]), pvox->pcm, pvox->pcm_count * sizeof (short)) ;
 		indx += pvox->pcm_count ;
 		} ;
